@@ -84,7 +84,19 @@ fn base_config(dir: &Path) -> Config {
 
 /// `child run <dir> <flags>`: one validation run as `vrps` would do it; prints one JSON line.
 /// Flags: `n` = without updates (no collector), `d` = "dirty" (no cleanup after the run), `-` = none.
+struct StderrLog;
+impl log::Log for StderrLog {
+    fn enabled(&self, _: &log::Metadata) -> bool { true }
+    fn log(&self, r: &log::Record) { eprintln!("LOG {}: {}", r.level(), r.args()); }
+    fn flush(&self) { }
+}
+static STDERR_LOG: StderrLog = StderrLog;
+
 fn child_run(dir: &Path, flags: &str) -> ! {
+    if std::env::var_os("C23_LOG").is_some() {
+        let _ = log::set_logger(&STDERR_LOG);
+        log::set_max_level(log::LevelFilter::Debug);
+    }
     let no_update = flags.contains('n');
     let mut config = base_config(dir);
     config.dirty_repository = flags.contains('d');
